@@ -175,6 +175,9 @@ CHECKS = {
 # GEN: behaviours generated by TLC from LsmGen.tla, replayed into the real library
 # =============================================================================================
 GEN_KEYMAP = lambda k: -1 if k < 0 else min(15, 3 * k)
+# option variants for generated behaviours (none of them changes what LsmGen predicts): bloom filter, Snappy, mmap, paranoid checks,
+# tiny block cache, minimal table cache
+GEN_OPTBITS = [0, 1 << 9, (1 << 9) | (1 << 8), 1 | (1 << 10), (1 << 9) | (1 << 12), (1 << 14) | (1 << 8), (1 << 9) | 1 | (2 << 12)]
 
 
 def gen_scripts(seed, per_worker, workers, max_ops, pick_per_tag, timeout, repair=False, require_tag=None, big=False, family=False):
@@ -290,7 +293,7 @@ def gen_layer(prop, tier, seed, out, mc):
     jobs = []
     for i, rec in enumerate(chosen):
         sp = os.path.join(d, 's%d.txt' % i); open(sp, 'w').write(script_text(rec))
-        ex = sr.Exec(seed * 1000 + i, 0, 'mixed', bits=(1 << 17) if rec.get('big') else 0); ex.script = sp; ex.tags = rec['tags']
+        ex = sr.Exec(seed * 1000 + i, 0, 'mixed', bits=((1 << 17) if rec.get('big') else 0) | GEN_OPTBITS[i % len(GEN_OPTBITS)]); ex.script = sp; ex.tags = rec['tags']
         jobs.append(ex)
     c.pmap(lambda ex: sr.run_exec(exe, ex, env={'VERIF_SCRIPT': ex.script}), jobs, c.NCPU)
     api = []; struct = []; owners = []
@@ -379,7 +382,7 @@ def run_c19(tier, seed):
         txt = script_text(rec).rstrip('\n').split('\n')
         txt = txt[:-4] + ['put 0', 'put 3', 'del 6', 'put 9', 'getall', 'flush', 'getall', 'scan', 'reopen', 'getall', 'scan']
         open(sp, 'w').write('\n'.join(txt) + '\n')
-        ex = sr.Exec(seed * 1000 + i, 0, 'mixed', bits=0); ex.script = sp; ex.tags = rec['tags']
+        ex = sr.Exec(seed * 1000 + i, 0, 'mixed', bits=GEN_OPTBITS[i % len(GEN_OPTBITS)]); ex.script = sp; ex.tags = rec['tags']
         jobs.append(ex)
     c.pmap(lambda ex: sr.run_exec(exe, ex, env={'VERIF_SCRIPT': ex.script}), jobs, c.NCPU)
     from . import p_api
